@@ -76,6 +76,43 @@ def re_method(I, rc, name, args, kwargs, node=None):
     pat, flags = rc.pattern, rc.flags
     if isinstance(pat, bytes):
         raise OutOfReach("bytes regex %r" % (pat,))
+    if name == "match" and len(args) == 2 and single_class_plus(pat, flags) is not None:
+        # [K]+ matched at a position: the maximal run of class characters starting there
+        s, pos = args
+        ranges = single_class_plus(pat, flags)
+        K, notK = class_regex(ranges), notclass_regex(ranges)
+        z, p = zs(s), zi(pos)
+        n = z3.Length(z)
+        here = z3.SubString(z, p, 1)
+        if not ctx.branch(z3.And(p >= 0, p <= n)):
+            raise OutOfReach("match position outside the string")
+        if ctx.branch(z3.Or(p >= n, z3.Not(z3.InRe(here, K)))):
+            return None
+        cut = B.split_parts(ctx, z, z3.simplify(p)) if not z3.is_string_value(z) else None
+        if cut is not None:
+            # word-equation form: the text from the position on is  run ++ tail
+            right = cut[1]
+            run = ctx.fresh("match_run").z
+            tail = ctx.fresh("match_tail").z
+            if right.decl().kind() == z3.Z3_OP_SEQ_CONCAT:
+                holder = ctx.fresh("match_from").z
+                ctx.assume(holder == right)
+                right = holder
+            ctx.word_equation(right, run, tail)
+            ctx.assume(z3.InRe(run, z3.Plus(K)))
+            ctx.assume(z3.InRe(tail, z3.Union(z3.Re(z3.StringVal("")), z3.Concat(notK, z3.Star(z3.AllChar(z3.ReSort(z3.StringSort())))))))
+            if cut[1].decl().kind() != z3.Z3_OP_SEQ_CONCAT:
+                pass
+            return B.MatchV(s, mk_int(p), mk_int(p + z3.Length(run)), {})
+        e = ctx.fresh("match_end", "int").z
+        run = z3.SubString(z, p, e - p)
+        ctx.assume(z3.And(e > p, e <= n))
+        ctx.assume(z3.InRe(run, z3.Plus(K)))
+        ctx.assume(z3.Length(run) == e - p)
+        ctx.assume(z3.Or(e == n, z3.InRe(z3.SubString(z, e, 1), notK)))
+        # z == z[:p] ++ run ++ z[e:]
+        ctx.assume(z == z3.Concat(z3.SubString(z, 0, p), run, z3.SubString(z, e, n - e)))
+        return B.MatchV(s, mk_int(p), mk_int(e), {})
     if name in ("match", "search", "fullmatch"):
         s = args[0]
         if len(args) > 1:
@@ -128,6 +165,19 @@ def match_method(I, m, name, args, kwargs, node=None):
     if name in ("start", "end") and getattr(m, name) is not None:
         return getattr(m, name)
     raise OutOfReach("match.%s of a symbolic match" % name)
+
+
+@B.library("re.compile")
+def _re_compile(I, args, kwargs):
+    pat = args[0]
+    flags = args[1] if len(args) > 1 else 0
+    if not isinstance(pat, (str, bytes)) or not isinstance(flags, int):
+        raise OutOfReach("re.compile of a symbolic pattern")
+    try:
+        re.compile(pat, flags)
+    except re.error as e:
+        raise PyRaise("error", str(e))
+    return ReConst(pat, flags, isinstance(pat, bytes))
 
 
 @B._native("re_sub_class_plus")
